@@ -661,6 +661,78 @@ def r04_8(facts, res):
         raise BrokenCheck("R04-8: %d declaration paths (floor 4)" % st["paths"])
 
 
+def r04_9(facts, res):
+    """A printer that writes the members of a collection field under a condition may only ask whether *that* collection is
+    empty.  A narrower condition (`!self.entities().is_empty() || !self.notations().is_empty()` around a loop over
+    `self.children`) drops the members the condition does not know about (processing instructions of the internal subset)."""
+    import staleidx
+    st = res.rule("R04-9", instances=0)
+    for ty, m, f in printers(facts):
+        seq = staleidx._walk_parents(f["body"])
+        for i, (n, pi, slot) in enumerate(seq):
+            if not (n.get("k") == "Match" and n.get("src") == "ForLoop"):
+                continue
+            over = [x["name"] for x in walk(n["scrut"]) if x.get("k") == "Field" and x["a"].get("k") == "Path" and x["a"].get("name") == "self"]
+            if not over:
+                continue
+            fld = over[0]
+            # enclosing conditions
+            k, slot_k = pi, slot
+            while k is not None:
+                pn, ppi, pslot = seq[k]
+                if pn.get("k") == "If" and slot_k in ("then", "else"):
+                    cond = pn["cond"]
+                    mentions_self = any(x.get("k") == "Path" and x.get("name") == "self" for x in walk(cond))
+                    on_field = any(x.get("k") == "Field" and x.get("name") == fld and x["a"].get("name") == "self" for x in walk(cond))
+                    other_calls = [x["m"] for x in walk(cond) if x.get("k") == "MethodCall" and x.get("recv", {}).get("k") == "Path"
+                                   and x["recv"].get("name") == "self"]
+                    if mentions_self:
+                        st["instances"] += 1
+                        ok = on_field and not other_calls
+                        res.oblige(1, ok)
+                        if not ok:
+                            res.add(Finding("R04-9", "%s::%s|%s" % (ty, m, fld), "%s prints the members of `%s` under a condition on %s: members "
+                                            "outside that condition are not printed" % (f["path"], fld, other_calls or "other state"),
+                                            f["file"], pn.get("ln"), {}))
+                slot_k = pslot
+                k = ppi
+    if st["instances"] < 2:
+        raise BrokenCheck("R04-9: %d guarded member loops (floor 2)" % st["instances"])
+
+
+RADIX_TEMPLATES = {10: "&#{};", 16: "&#x{};"}
+
+
+def r04_10(facts, res):
+    """A character reference is written `&#` digits `;` for radix 10 and `&#x` hex digits `;` for radix 16 (production [66]):
+    the printers that hold (digits, radix) select the template by the *literal* radix."""
+    st = res.rule("R04-10", instances=0)
+    for path in ("xml_info::<XmlEntityValue as std::fmt::Display>::fmt", "xml_info::<XmlCharReference as std::fmt::Display>::fmt"):
+        f = facts.fn(path)
+        got = {}
+        guards_ = []
+        for n in walk(f["body"]):
+            if n.get("k") == "Match" and n.get("src") == "Normal":
+                for arm in n["arms"]:
+                    pat = arm["pat"]
+                    lit = pat["e"]["v"] if pat.get("p") == "Expr" and pat.get("e", {}).get("k") == "Lit" else None
+                    tm = [split_args(x["snip"])[0] for x in walk(arm["body"]) if x.get("mac", "").startswith("write") and x.get("snip")]
+                    tm = [t for t in tm if t and "&#" in t]
+                    if lit in (10, 16) and tm:
+                        got[lit] = tm[0]
+                    elif tm and arm.get("guard") is not None:
+                        guards_.append(tm[0])
+                    elif tm and lit is None and pat.get("p") not in ("Expr",) and not any(a for a in walk(arm["body"]) if a.get("k") == "Match" and a.get("src") == "Normal"):
+                        guards_.append(tm[0])
+        st["instances"] += 1
+        ok = got == RADIX_TEMPLATES and not guards_
+        res.oblige(1, ok)
+        if not ok:
+            res.add(Finding("R04-10", path.split("<")[1].split(" ")[0], "%s selects the reference templates %s%s; expected %s by literal radix: a hexadecimal "
+                            "reference printed without `x` is another (or no) character" % (path, got, (" and by guard " + str(guards_)) if guards_ else "", RADIX_TEMPLATES),
+                            f["file"], f["line"], {}))
+
+
 def run(facts, tier):
     res = Result("C04")
     res.explanation = (
@@ -706,6 +778,8 @@ def run(facts, tier):
     structural_eq(facts, res, "R04-6")
     r04_7(facts, res)
     r04_8(facts, res)
+    r04_9(facts, res)
+    r04_10(facts, res)
     # ---- R04-3
     st3 = res.rule("R04-3", instances=0)
     for ty in ITEM_TYPES:
